@@ -83,8 +83,10 @@ def run(tier, seed):
 
 
 def replay(path):
+    """the recorded cases are printed; the verdict comes from re-running the check that found them, with the same tier and
+    seed, on the current tree (the cases of this check depend on what ran before them in the same process, or need the
+    TLC-computed expectations)"""
     data = json.loads(open(path).read())
-    for c in data["cases"]:
-        print(json.dumps(c)[:800])
-    print(f"VIOLATION property={PID} replay={path}")
-    return 1
+    for c in data["cases"][:5]:
+        print(json.dumps(c)[:600])
+    return run(data.get("tier", "quick"), data.get("seed", 0))
